@@ -3,7 +3,7 @@
 #  patch applies, existing suite stays green with it, demo fails with it and passes without it.
 # Writes /verif/seeded/<Cid>-<mN>/{patch.diff,demo.rs,notes.md,meta.json}
 id=$1; m=$2
-src=/tmp/seed-$id/$m; wt=/tmp/wt-$id; out=/verif/seeded/$id-$m
+src=${SEED_SRC:-/tmp/seed-$id/$m}; wt=${SEED_WT:-/tmp/wt-$id}; out=${SEED_OUT:-/verif/seeded/$id-$m}
 export CARGO_TARGET_DIR=$wt/target CARGO_NET_OFFLINE=true
 cd $wt || exit 2
 git checkout -q -- . ; git clean -qfd -e target
